@@ -1,19 +1,31 @@
-//! C29 — not built yet (stub).
+//! C29 — vector and hybrid search return correctly scored, filtered hits (feature `vectors`).
+//!
+//! Correspondence: the real index (several segments, deletions, upserts, missing vectors)
+//! is searched with vector-only, multi-clause and hybrid requests and compared with
+//! `SL.Vec.searchReq` (same plan rules, same flat-graph construction and search, same
+//! blend), hit by hit; the `.hnsw` graph files written by the real segment writer are
+//! compared with `SL.Vec.buildGraph`; `HnswIndex` itself is compared with the model on
+//! random stores beyond the exactness regime.
+//! Finder (implementation alone, brute force in f64): hits are live, have a vector, pass
+//! `filter`/`vector_filter`; `vector_score` = exact similarity × boost; `score` = documented
+//! blend; order; wrong dimension ⇒ rejected; exact nearest neighbours when every segment
+//! holds at most `hnsw.m` vectors; compaction keeps vector results.
 use crate::proto::Driver;
 use crate::rng::Rng;
 use crate::summary::Summary;
 use crate::{Prop, Tier};
 use serde_json::{json, Value};
 
-pub struct Stub;
-pub static P: Stub = Stub;
+pub struct C29;
+pub static P: C29 = C29;
 
-impl Prop for Stub {
+#[cfg(not(feature = "vectors"))]
+impl Prop for C29 {
   fn id(&self) -> &'static str {
     "C29"
   }
   fn rule(&self) -> &'static str {
-    "stub"
+    "harness built without the `vectors` feature: nothing is run (tools/props.json enables it for ./check C29)"
   }
   fn count(&self, _tier: Tier) -> usize {
     0
@@ -22,4 +34,1206 @@ impl Prop for Stub {
     json!(null)
   }
   fn run_case(&self, _drv: &mut Driver, _case: &Value, _s: &mut Summary) {}
+  fn finish(&self, _tier: Tier, s: &mut Summary) {
+    s.notes.push("C29: harness built without feature `vectors`; no case was run".to_string());
+  }
+}
+
+#[cfg(feature = "vectors")]
+impl Prop for C29 {
+  fn id(&self) -> &'static str {
+    "C29"
+  }
+  fn rule(&self) -> &'static str {
+    "case kinds: `index` = random vector schema (1-2 fields, dim 1-8, Cosine/L2, optional hnsw m/ef_construction), 1-4 add commits (= segments) with missing/null vectors, delete-only commits and upserts in between, then 4-8 requests (single vector clause, bool/dis_max of several clauses, hybrid via vector_query tuple/object, hybrid bool, filter/vector_filter, explicit k/candidate_size/ef_search/boost/alpha, wrong dimension and other invalid parameters), optionally followed by compact(); `hnsw` = HnswIndex built directly on a random store and searched with random (k, ef); `baddoc` = document whose vector has the wrong dimension. One evaluation = one request (or one hnsw search / one bad document). A request is non-trivial when it is rejected for its dimension, or when it returns at least one hit with a vector_score while the index holds at least one ineligible vector document (deleted, filtered out, missing vector) or at least two eligible ones; an hnsw search is non-trivial when the store has at least 2 vectors."
+  }
+  fn count(&self, tier: Tier) -> usize {
+    tier.pick(260, 6000)
+  }
+  fn gen(&self, rng: &mut Rng, tier: Tier, i: usize) -> Value {
+    imp::gen(rng, tier, i)
+  }
+  fn run_case(&self, drv: &mut Driver, case: &Value, s: &mut Summary) {
+    imp::run_case(drv, case, s)
+  }
+}
+
+#[cfg(feature = "vectors")]
+mod imp {
+  use super::*;
+  use crate::idx;
+  use crate::util::{guarded, scratch};
+  use searchlite_core::api::types::VectorMetric;
+  use searchlite_core::vectors::hnsw::{HnswIndex, HnswParams};
+  use searchlite_core::vectors::{normalize_in_place, VectorStore};
+  use std::collections::{BTreeMap, BTreeSet};
+  use std::sync::Arc;
+
+  const WORDS: [&str; 6] = ["rust", "fast", "lite", "index", "engine", "search"];
+  const TAGS: [&str; 3] = ["a", "b", "c"];
+
+  // ---------------------------------------------------------------- generation
+
+  fn coord(rng: &mut Rng) -> f64 {
+    rng.range(-8, 8) as f64 * 0.25
+  }
+
+  fn vector(rng: &mut Rng, dim: usize) -> Vec<f64> {
+    if rng.chance(1, 40) {
+      return vec![0.0; dim];
+    }
+    (0..dim).map(|_| coord(rng)).collect()
+  }
+
+  fn gen_filter(rng: &mut Rng) -> Value {
+    match rng.below(4) {
+      0 => json!({"KeywordEq": {"field": "tag", "value": *rng.pick(&TAGS)}}),
+      1 => json!({"KeywordIn": {"field": "tag", "values": [*rng.pick(&TAGS), *rng.pick(&TAGS)]}}),
+      2 => {
+        let lo = rng.range(0, 6);
+        json!({"I64Range": {"field": "n", "min": lo, "max": lo + rng.range(0, 6)}})
+      }
+      _ => json!({"Not": {"KeywordEq": {"field": "tag", "value": *rng.pick(&TAGS)}}}),
+    }
+  }
+
+  fn gen_clause(rng: &mut Rng, fields: &[Value], tuning: bool) -> Value {
+    let f = rng.pick(fields).clone();
+    let dim = f["dim"].as_u64().unwrap() as usize;
+    let mut c = json!({"type": "vector", "field": f["name"], "vector": vector(rng, dim)});
+    match rng.below(5) {
+      0 => {}
+      1 | 2 => c["alpha"] = json!(0.0),
+      _ => c["alpha"] = json!(*rng.pick(&[0.25, 0.5, 0.75, 1.0])),
+    }
+    if rng.chance(1, 2) {
+      c["k"] = json!(*rng.pick(&[1usize, 2, 3, 5, 10, 50]));
+    }
+    if rng.chance(1, 3) {
+      c["boost"] = json!(*rng.pick(&[0.5, 1.0, 1.5, 2.0, 0.0]));
+    }
+    if tuning {
+      if rng.chance(1, 2) {
+        c["candidate_size"] = json!(*rng.pick(&[1usize, 2, 3, 5, 8, 20, 100]));
+      }
+      if rng.chance(1, 2) {
+        c["ef_search"] = json!(*rng.pick(&[1usize, 2, 4, 8, 40, 200]));
+      }
+    }
+    c
+  }
+
+  /// one request plus what the generator knows about it (`vector_only`)
+  fn gen_request(rng: &mut Rng, fields: &[Value]) -> Value {
+    let tuning = rng.chance(1, 4);
+    let shape = rng.below(20);
+    let limit = *rng.pick(&[1usize, 2, 3, 5, 10, 10, 20]);
+    let mut req = json!({"limit": limit, "return_stored": true});
+    let vector_only;
+    let mut text_words: Vec<&str> = Vec::new();
+    let name;
+    match shape {
+      0..=6 => {
+        name = "single";
+        req["query"] = gen_clause(rng, fields, tuning);
+        vector_only = true;
+      }
+      7..=9 => {
+        name = "multi";
+        let n = 2 + rng.below(2);
+        let cl: Vec<Value> = (0..n).map(|_| gen_clause(rng, fields, tuning)).collect();
+        req["query"] = match rng.below(3) {
+          0 => json!({"type": "bool", "should": cl}),
+          1 => json!({"type": "bool", "must": [cl[0]], "should": cl[1..]}),
+          _ => json!({"type": "dis_max", "queries": cl}),
+        };
+        vector_only = true;
+      }
+      10..=12 => {
+        name = "hybrid_legacy";
+        let w = *rng.pick(&WORDS);
+        text_words.push(w);
+        let mut q = w.to_string();
+        if rng.chance(1, 3) {
+          let w2 = *rng.pick(&WORDS);
+          if w2 != w {
+            text_words.push(w2);
+            q = format!("{w} {w2}");
+          }
+        }
+        req["query"] = json!(q);
+        let c = gen_clause(rng, fields, false);
+        let alpha = *rng.pick(&[0.0, 0.25, 0.5, 0.75, 1.0]);
+        req["vector_query"] = json!([c["field"], c["vector"], alpha]);
+        vector_only = false;
+      }
+      13..=15 => {
+        name = "hybrid_object";
+        let w = *rng.pick(&WORDS);
+        text_words.push(w);
+        req["query"] = if rng.chance(1, 2) { json!(w) } else { json!({"type": "term", "field": "body", "value": w}) };
+        let mut c = gen_clause(rng, fields, tuning);
+        c.as_object_mut().unwrap().remove("type");
+        req["vector_query"] = c;
+        vector_only = false;
+      }
+      16..=17 => {
+        name = "hybrid_bool";
+        let w = *rng.pick(&WORDS);
+        text_words.push(w);
+        let n = 1 + rng.below(2);
+        let cl: Vec<Value> = (0..n).map(|_| gen_clause(rng, fields, tuning)).collect();
+        req["query"] = json!({"type": "bool", "must": [{"type": "term", "field": "body", "value": w}], "should": cl});
+        vector_only = false;
+      }
+      18 => {
+        // wrong dimension
+        name = "wrong_dim";
+        let mut c = gen_clause(rng, fields, false);
+        let mut v = c["vector"].as_array().unwrap().clone();
+        if v.len() > 1 && rng.chance(1, 2) {
+          v.pop();
+        } else {
+          v.push(json!(0.5));
+        }
+        c["vector"] = json!(v);
+        if rng.chance(1, 2) {
+          req["query"] = c;
+          vector_only = true;
+        } else {
+          req["query"] = json!("rust");
+          c.as_object_mut().unwrap().remove("type");
+          req["vector_query"] = c;
+          vector_only = false;
+        }
+      }
+      _ => {
+        // other invalid parameters
+        name = "invalid";
+        let mut c = gen_clause(rng, fields, false);
+        match rng.below(5) {
+          0 => c["alpha"] = json!(1.5),
+          1 => c["alpha"] = json!(-0.25),
+          2 => c["boost"] = json!(-1.0),
+          3 => c["field"] = json!("nosuch"),
+          _ => {
+            let cl: Vec<Value> = (0..9).map(|_| c.clone()).collect();
+            c = json!({"type": "bool", "should": cl});
+          }
+        }
+        req["query"] = c;
+        vector_only = true;
+      }
+    }
+    if rng.chance(3, 10) {
+      req["filter"] = gen_filter(rng);
+    }
+    if rng.chance(3, 10) {
+      req["vector_filter"] = gen_filter(rng);
+    }
+    if rng.chance(1, 6) {
+      req["candidate_size"] = json!(*rng.pick(&[1usize, 3, 10, 50]));
+    }
+    req["execution"] = json!(if rng.chance(1, 5) { "wand" } else { "bm25" });
+    let _ = text_words;
+    json!({"shape": name, "vector_only": vector_only, "req": req})
+  }
+
+  fn gen_doc(rng: &mut Rng, id: usize, version: usize, fields: &[Value]) -> Value {
+    let nw = 1 + rng.below(4);
+    let body: Vec<&str> = (0..nw).map(|_| *rng.pick(&WORDS)).collect();
+    let mut d = json!({"_id": format!("d{id}"), "ver": format!("d{id}#{version}"), "body": body.join(" "), "n": rng.range(0, 9)});
+    if rng.chance(4, 5) {
+      d["tag"] = json!(*rng.pick(&TAGS));
+    }
+    for f in fields {
+      let name = f["name"].as_str().unwrap();
+      let dim = f["dim"].as_u64().unwrap() as usize;
+      match rng.below(20) {
+        0..=2 => {}
+        3 => d[name] = Value::Null,
+        _ => d[name] = json!(vector(rng, dim)),
+      }
+    }
+    d
+  }
+
+  fn gen_fields(rng: &mut Rng) -> Vec<Value> {
+    let nf = if rng.chance(7, 10) { 1 } else { 2 };
+    (0..nf)
+      .map(|i| {
+        let mut f = json!({"name": format!("v{i}"), "dim": 1 + rng.below(8), "metric": if rng.chance(1, 2) { "Cosine" } else { "L2" }});
+        if rng.chance(2, 5) {
+          f["hnsw"] = json!({"m": *rng.pick(&[1usize, 2, 3, 4, 6, 8, 16, 24, 48]), "ef_construction": *rng.pick(&[1usize, 2, 4, 8, 64, 100])});
+        }
+        f
+      })
+      .collect()
+  }
+
+  fn field_m(f: &Value) -> usize {
+    f["hnsw"]["m"].as_u64().unwrap_or(16) as usize
+  }
+  fn field_efc(f: &Value) -> usize {
+    f["hnsw"]["ef_construction"].as_u64().unwrap_or(64) as usize
+  }
+
+  pub fn gen(rng: &mut Rng, _tier: Tier, i: usize) -> Value {
+    if i % 13 == 5 {
+      // direct HnswIndex case
+      let dim = 1 + rng.below(8);
+      let m = *rng.pick(&[1usize, 2, 3, 4, 8, 16, 32]);
+      let n = if rng.chance(1, 2) { 1 + rng.below(m + 1) } else { 1 + rng.below(70) };
+      let store: Vec<Value> = (0..n).map(|_| if rng.chance(1, 8) { Value::Null } else { json!(vector(rng, dim)) }).collect();
+      let searches: Vec<Value> = (0..6)
+        .map(|_| json!({"q": vector(rng, dim), "k": *rng.pick(&[1usize, 2, 3, 5, 10, 20, 80]), "ef": *rng.pick(&[1usize, 2, 4, 8, 16, 40, 100])}))
+        .collect();
+      return json!({"kind": "hnsw", "dim": dim, "metric": if rng.chance(1, 2) { "Cosine" } else { "L2" },
+        "m": m, "efc": *rng.pick(&[1usize, 2, 4, 8, 64]), "store": store, "searches": searches});
+    }
+    let fields = gen_fields(rng);
+    if i % 29 == 7 {
+      let f = &fields[0];
+      let dim = f["dim"].as_u64().unwrap() as usize;
+      let bad = if dim > 1 && rng.chance(1, 2) { dim - 1 } else { dim + 1 + rng.below(2) };
+      let good = gen_doc(rng, 0, 0, &fields);
+      let mut doc = gen_doc(rng, 1, 0, &fields);
+      doc[f["name"].as_str().unwrap()] = json!(vector(rng, bad).iter().map(|x| x + 0.25).collect::<Vec<f64>>());
+      return json!({"kind": "baddoc", "fields": fields, "good": good, "doc": doc});
+    }
+    let min_m = fields.iter().map(field_m).min().unwrap_or(16);
+    // 65 %: every segment within the exactness regime (at most m documents per segment)
+    let exact = rng.chance(13, 20);
+    let ncommits = 1 + rng.below(4);
+    let mut commits: Vec<Value> = Vec::new();
+    let mut next_id = 0usize;
+    let mut versions: BTreeMap<usize, usize> = BTreeMap::new();
+    for ci in 0..ncommits {
+      let cap = if exact { min_m.min(24) } else { (3 * min_m + 3).min(40) };
+      let nd = 1 + rng.below(cap.max(1));
+      let mut docs = Vec::new();
+      let mut used: BTreeSet<usize> = BTreeSet::new();
+      for _ in 0..nd {
+        let id = if next_id > 0 && rng.chance(3, 20) {
+          let id = rng.below(next_id);
+          if used.contains(&id) {
+            next_id += 1;
+            next_id - 1
+          } else {
+            id
+          }
+        } else {
+          next_id += 1;
+          next_id - 1
+        };
+        used.insert(id);
+        let v = versions.entry(id).or_insert(0);
+        docs.push(gen_doc(rng, id, *v, &fields));
+        *v += 1;
+      }
+      commits.push(json!({"add": docs}));
+      if ci + 1 < ncommits || rng.chance(1, 2) {
+        if next_id > 0 && rng.chance(2, 5) {
+          let nd = 1 + rng.below(3);
+          let ids: Vec<String> = (0..nd).map(|_| format!("d{}", rng.below(next_id))).collect();
+          commits.push(json!({"delete": ids}));
+        }
+      }
+    }
+    let nreq = 4 + rng.below(5);
+    let requests: Vec<Value> = (0..nreq).map(|_| gen_request(rng, &fields)).collect();
+    json!({"kind": "index", "fields": fields, "commits": commits, "requests": requests, "compact": rng.chance(1, 10), "mem": rng.chance(1, 8)})
+  }
+
+  // ---------------------------------------------------------------- helpers
+
+  fn near(a: f64, b: f64) -> bool {
+    if a == b {
+      return true;
+    }
+    // sums of `f32::MIN` penalties overflow to -inf in the implementation
+    if (a == f64::NEG_INFINITY && b <= -1e37) || (b == f64::NEG_INFINITY && a <= -1e37) {
+      return true;
+    }
+    (a - b).abs() <= 1e-5 * 1f64.max(a.abs()).max(b.abs())
+  }
+
+  fn f64s(v: &Value) -> Vec<f64> {
+    v.as_array().map(|a| a.iter().map(|x| x.as_f64().unwrap_or(f64::NAN)).collect()).unwrap_or_default()
+  }
+
+  /// exact similarity in f64: cosine (0 when either side is the zero vector) or −distance
+  fn exact_sim(metric: &str, q: &[f64], v: &[f64]) -> f64 {
+    if metric == "Cosine" {
+      let dot: f64 = q.iter().zip(v).map(|(a, b)| a * b).sum();
+      let nq: f64 = q.iter().map(|a| a * a).sum::<f64>().sqrt();
+      let nv: f64 = v.iter().map(|a| a * a).sum::<f64>().sqrt();
+      if nq == 0.0 || nv == 0.0 {
+        0.0
+      } else {
+        dot / (nq * nv)
+      }
+    } else {
+      -q.iter().zip(v).map(|(a, b)| (a - b) * (a - b)).sum::<f64>().sqrt()
+    }
+  }
+
+  fn missing_score(metric: &str) -> f64 {
+    if metric == "Cosine" {
+      -1.0
+    } else {
+      f32::MIN as f64
+    }
+  }
+
+  /// the harness's own reading of the four filter forms it generates
+  fn passes(filter: &Value, d: &Value) -> bool {
+    if filter.is_null() {
+      return true;
+    }
+    if let Some(f) = filter.get("KeywordEq") {
+      return d["tag"].as_str() == f["value"].as_str();
+    }
+    if let Some(f) = filter.get("KeywordIn") {
+      let t = d["tag"].as_str();
+      return t.is_some() && f["values"].as_array().map(|a| a.iter().any(|x| x.as_str() == t)).unwrap_or(false);
+    }
+    if let Some(f) = filter.get("I64Range") {
+      let n = d["n"].as_i64().unwrap_or(i64::MIN);
+      return n >= f["min"].as_i64().unwrap_or(0) && n <= f["max"].as_i64().unwrap_or(0);
+    }
+    if let Some(f) = filter.get("Not") {
+      return !passes(f, d);
+    }
+    true
+  }
+
+  #[derive(Clone)]
+  #[allow(dead_code)]
+  struct Ver {
+    ver: String,
+    seg: usize,
+    doc: usize,
+    deleted: bool,
+    json: Value,
+  }
+
+  impl Ver {
+    fn vec(&self, field: &str) -> Option<Vec<f64>> {
+      match self.json.get(field) {
+        Some(Value::Array(_)) => Some(f64s(&self.json[field])),
+        _ => None,
+      }
+    }
+  }
+
+  /// vector clauses of a request as the generator wrote them (query tree or vector_query)
+  fn clauses_of(req: &Value) -> Vec<Value> {
+    fn walk(n: &Value, out: &mut Vec<Value>) {
+      match n["type"].as_str() {
+        Some("vector") => out.push(n.clone()),
+        Some("bool") => {
+          for k in ["must", "should", "must_not"] {
+            for c in n[k].as_array().cloned().unwrap_or_default() {
+              walk(&c, out);
+            }
+          }
+        }
+        Some("dis_max") => {
+          for c in n["queries"].as_array().cloned().unwrap_or_default() {
+            walk(&c, out);
+          }
+        }
+        _ => {}
+      }
+    }
+    let mut out = Vec::new();
+    walk(&req["query"], &mut out);
+    if out.is_empty() {
+      match &req["vector_query"] {
+        Value::Array(a) if a.len() == 3 => out.push(json!({"field": a[0], "vector": a[1], "alpha": a[2]})),
+        Value::Object(_) => out.push(req["vector_query"].clone()),
+        _ => {}
+      }
+    }
+    out
+  }
+
+  fn field_of<'a>(fields: &'a [Value], name: &str) -> Option<&'a Value> {
+    fields.iter().find(|f| f["name"].as_str() == Some(name))
+  }
+
+  fn ver_of_hit(h: &Value) -> String {
+    let v = &h["fields"]["ver"];
+    match v {
+      Value::String(s) => s.clone(),
+      Value::Array(a) => a.first().and_then(|x| x.as_str()).unwrap_or("").to_string(),
+      _ => String::new(),
+    }
+  }
+
+  /// one search through the real reader; scores are kept bit for bit (`serde_json` would turn
+  /// a non-finite `f32` into `null`)
+  fn search(reader: &searchlite_core::api::IndexReader, req: &Value) -> idx::Outcome {
+    let r = match idx::request(req) {
+      Ok(r) => r,
+      Err(e) => return idx::Outcome::Err(e),
+    };
+    match guarded(|| reader.search(&r)) {
+      Ok(Ok(res)) => {
+        let hits: Vec<Value> = res
+          .hits
+          .iter()
+          .map(|h| json!({"doc_id": h.doc_id, "score": h.score as f64, "score_bits": h.score.to_bits(),
+            "vector_score": h.vector_score.map(|x| x as f64), "vs_bits": h.vector_score.map(|x| x.to_bits()), "fields": h.fields}))
+          .collect();
+        idx::Outcome::Ok(json!({"hits": hits}))
+      }
+      Ok(Err(e)) => idx::Outcome::Err(e.to_string()),
+      Err(p) => idx::Outcome::Panic(p),
+    }
+  }
+
+  fn hscore(h: &Value) -> f64 {
+    f32::from_bits(h["score_bits"].as_u64().unwrap_or(0x7fc00000) as u32) as f64
+  }
+
+  fn hvs(h: &Value) -> Option<f64> {
+    h["vs_bits"].as_u64().map(|b| f32::from_bits(b as u32) as f64)
+  }
+
+  fn bits_f32(j: &Value) -> f64 {
+    f32::from_bits(j["bits"].as_u64().unwrap_or(0) as u32) as f64
+  }
+
+  fn schema_json(fields: &[Value]) -> Value {
+    json!({
+      "doc_id_field": "_id",
+      "text_fields": [{"name": "body", "analyzer": "default", "stored": true, "indexed": true, "nullable": false}],
+      "keyword_fields": [
+        {"name": "tag", "stored": true, "indexed": true, "fast": true, "nullable": true},
+        {"name": "ver", "stored": true, "indexed": true, "fast": true, "nullable": false}],
+      "numeric_fields": [{"name": "n", "i64": true, "fast": true, "stored": true, "nullable": false}],
+      "nested_fields": [],
+      "vector_fields": fields,
+    })
+  }
+
+  fn model_schema(fields: &[Value]) -> Value {
+    Value::Array(fields.iter().map(|f| json!({"name": f["name"], "dim": f["dim"], "metric": f["metric"], "m": field_m(f), "efc": field_efc(f)})).collect())
+  }
+
+  // ---------------------------------------------------------------- case kinds
+
+  pub fn run_case(drv: &mut Driver, case: &Value, s: &mut Summary) {
+    match case["kind"].as_str() {
+      Some("hnsw") => run_hnsw(drv, case, s),
+      Some("baddoc") => run_baddoc(case, s),
+      Some("index") => run_index(drv, case, s),
+      _ => s.notes.push(format!("C29: unknown case kind {}", case["kind"])),
+    }
+  }
+
+  /// `HnswIndex` on a store built directly, against `buildGraph` / `search`
+  fn run_hnsw(drv: &mut Driver, case: &Value, s: &mut Summary) {
+    let dim = case["dim"].as_u64().unwrap_or(1) as usize;
+    let metric_s = case["metric"].as_str().unwrap_or("L2");
+    let metric = if metric_s == "Cosine" { VectorMetric::Cosine } else { VectorMetric::L2 };
+    let m = case["m"].as_u64().unwrap_or(16) as usize;
+    let efc = case["efc"].as_u64().unwrap_or(64) as usize;
+    let raw = case["store"].as_array().cloned().unwrap_or_default();
+    let mut offsets = Vec::new();
+    let mut values: Vec<f32> = Vec::new();
+    let mut present = 0u32;
+    for v in &raw {
+      if v.is_null() {
+        offsets.push(u32::MAX);
+      } else {
+        let mut x: Vec<f32> = f64s(v).iter().map(|a| *a as f32).collect();
+        if metric_s == "Cosine" {
+          normalize_in_place(&mut x);
+        }
+        offsets.push(present);
+        present += 1;
+        values.extend(x);
+      }
+    }
+    let store = Arc::new(VectorStore::new(dim, metric, offsets, values));
+    let built = guarded(|| {
+      let mut index = HnswIndex::new(store.clone(), HnswParams { m, ef_construction: efc });
+      for id in 0..raw.len() {
+        if store.vector(id as u32).is_some() {
+          index.add_vector(id as u32);
+        }
+      }
+      index
+    });
+    let index = match built {
+      Ok(i) => i,
+      Err(p) => {
+        s.case(case, true);
+        s.fail("hnsw.build-panic", "HnswIndex construction panicked", case, json!({"panic": p}));
+        return;
+      }
+    };
+    s.count("kind.hnsw");
+    let g = serde_json::to_value(index.graph()).unwrap_or(Value::Null);
+    let mg = drv.call("C29", json!({"op": "graph", "metric": metric_s, "store": raw, "m": m, "efc": efc}));
+    let same = mg["ok"] == json!(true) && mg["entry"] == g["entry"] && mg["neighbors"] == g["neighbors"];
+    if !same {
+      s.disagree("hnsw.graph", case, json!({"entry": g["entry"], "neighbors": g["neighbors"]}), mg.clone());
+    }
+    s.traces_validated += 1;
+    let n_present = present as usize;
+    s.count(if n_present <= m { "hnsw.store<=m" } else { "hnsw.store>m" });
+    for sr in case["searches"].as_array().cloned().unwrap_or_default() {
+      let mut q: Vec<f32> = f64s(&sr["q"]).iter().map(|a| *a as f32).collect();
+      if metric_s == "Cosine" {
+        normalize_in_place(&mut q);
+      }
+      let k = sr["k"].as_u64().unwrap_or(1) as usize;
+      let ef = sr["ef"].as_u64().unwrap_or(1) as usize;
+      let res = index.search(&q, k, ef);
+      let sub = json!({"kind": "hnsw", "dim": dim, "metric": metric_s, "m": m, "efc": efc, "store": raw, "searches": [sr]});
+      s.case(&sub, n_present >= 2);
+      let mr = drv.call("C29", json!({"op": "hnsw_search", "metric": metric_s, "store": raw, "m": m, "efc": efc, "q": sr["q"], "k": k, "ef": ef}));
+      let imp: Vec<(u64, u32)> = res.iter().map(|(id, sc)| (*id as u64, sc.to_bits())).collect();
+      let model: Vec<(u64, u32)> = mr["hits"].as_array().map(|a| a.iter().map(|h| (h["id"].as_u64().unwrap_or(u64::MAX), h["score"]["bits"].as_u64().unwrap_or(0) as u32)).collect()).unwrap_or_default();
+      if mr["ok"] != json!(true) || imp.iter().map(|x| x.0).collect::<Vec<_>>() != model.iter().map(|x| x.0).collect::<Vec<_>>() {
+        s.disagree("hnsw.search", &sub, json!(imp), mr.clone());
+      } else if imp != model {
+        s.count("hnsw.search.score-bits-differ");
+        if imp.iter().zip(&model).any(|(a, b)| !near(f32::from_bits(a.1) as f64, f32::from_bits(b.1) as f64)) {
+          s.disagree("hnsw.search.score", &sub, json!(imp), mr.clone());
+        }
+      } else {
+        s.count("hnsw.search.bit-exact");
+      }
+      // finder: at most m vectors ⇒ exact top-k whenever ef (= max(ef, k)) covers the store
+      if n_present <= m {
+        let qq = f64s(&sr["q"]);
+        let mut exact: Vec<(f64, usize)> = raw.iter().enumerate().filter(|(_, v)| !v.is_null()).map(|(i, v)| (exact_sim(metric_s, &qq, &f64s(v)), i)).collect();
+        exact.sort_by(|a, b| b.0.partial_cmp(&a.0).unwrap());
+        let want = k.min(exact.len());
+        let ok = res.len() == want && res.iter().enumerate().all(|(i, (_, sc))| near(*sc as f64, exact[i].0));
+        if !ok {
+          let sig = if ef.max(k) < n_present { "exact-nn.ef-below-segment-size" } else { "exact-nn.hnsw" };
+          s.fail(sig, "HnswIndex::search on a store with at most m vectors does not return the exact top-k", &sub,
+            json!({"returned": res.iter().map(|(i, sc)| json!([i, sc])).collect::<Vec<_>>(), "exact": exact.iter().take(want).map(|(sc, i)| json!([i, sc])).collect::<Vec<_>>(), "ef": ef, "k": k, "vectors": n_present, "m": m}));
+        }
+      }
+    }
+  }
+
+  /// a document whose vector has the wrong dimension must be rejected
+  fn run_baddoc(case: &Value, s: &mut Summary) {
+    let fields = case["fields"].as_array().cloned().unwrap_or_default();
+    let dir = scratch();
+    let idx = match idx::create(dir.path(), &schema_json(&fields), false) {
+      Ok(i) => i,
+      Err(e) => {
+        s.notes.push(format!("C29 baddoc: create failed: {e}"));
+        return;
+      }
+    };
+    s.count("kind.baddoc");
+    s.case(case, true);
+    if let Err(e) = idx::add_commit(&idx, &[case["good"].clone()]) {
+      s.notes.push(format!("C29 baddoc: good doc rejected: {e}"));
+      return;
+    }
+    let r = guarded(|| idx::add_commit(&idx, &[case["doc"].clone()]));
+    match r {
+      Ok(Err(e)) => {
+        s.count(if e.starts_with("add:") { "baddoc.rejected-at-add" } else { "baddoc.rejected-at-commit" });
+      }
+      Ok(Ok(())) => s.fail("dim.document-accepted", "a document whose vector has the wrong dimension was added and committed", case, json!({"result": "ok"})),
+      Err(p) => s.fail("dim.document-panic", "a document whose vector has the wrong dimension panicked", case, json!({"panic": p})),
+    }
+  }
+
+  struct Built {
+    segs: Vec<Vec<Ver>>,
+  }
+
+  /// replay the commits on the real index and track which version lives where
+  fn build(idx: &searchlite_core::api::Index, commits: &[Value]) -> Result<Built, String> {
+    let mut segs: Vec<Vec<Ver>> = Vec::new();
+    for c in commits {
+      if let Some(docs) = c["add"].as_array() {
+        idx::add_commit(idx, docs)?;
+        // the writer keeps the pending documents of a commit in a map keyed by id: a segment
+        // holds them in byte order of `_id`
+        let mut docs: Vec<Value> = docs.clone();
+        docs.sort_by(|a, b| a["_id"].as_str().unwrap_or("").cmp(b["_id"].as_str().unwrap_or("")));
+        let docs = &docs;
+        let seg = segs.len();
+        for d in docs {
+          let id = d["_id"].as_str().unwrap_or("");
+          for sg in segs.iter_mut() {
+            for v in sg.iter_mut() {
+              if v.json["_id"].as_str() == Some(id) {
+                v.deleted = true;
+              }
+            }
+          }
+        }
+        let vs = docs.iter().enumerate().map(|(i, d)| Ver { ver: d["ver"].as_str().unwrap_or("").to_string(), seg, doc: i, deleted: false, json: d.clone() }).collect();
+        segs.push(vs);
+      } else if let Some(ids) = c["delete"].as_array() {
+        let ids: Vec<String> = ids.iter().filter_map(|x| x.as_str().map(|s| s.to_string())).collect();
+        idx::delete_commit(idx, &ids)?;
+        for sg in segs.iter_mut() {
+          for v in sg.iter_mut() {
+            if ids.iter().any(|i| v.json["_id"].as_str() == Some(i)) {
+              v.deleted = true;
+            }
+          }
+        }
+      }
+    }
+    Ok(Built { segs })
+  }
+
+  fn run_index(drv: &mut Driver, case: &Value, s: &mut Summary) {
+    let fields = case["fields"].as_array().cloned().unwrap_or_default();
+    let commits = case["commits"].as_array().cloned().unwrap_or_default();
+    let mem = case["mem"].as_bool().unwrap_or(false);
+    let dir = scratch();
+    let idx = match idx::create(dir.path(), &schema_json(&fields), mem) {
+      Ok(i) => i,
+      Err(e) => {
+        s.notes.push(format!("C29: create failed: {e}"));
+        return;
+      }
+    };
+    let built = match guarded(|| build(&idx, &commits)) {
+      Ok(Ok(b)) => b,
+      Ok(Err(e)) => {
+        s.case(case, false);
+        s.disagree("build", case, json!({"error": e}), json!("the model accepts every generated document"));
+        return;
+      }
+      Err(p) => {
+        s.case(case, true);
+        s.fail("build.panic", "indexing documents with vectors panicked", case, json!({"panic": p}));
+        return;
+      }
+    };
+    s.count("kind.index");
+    s.count(if mem { "storage.memory" } else { "storage.fs" });
+    s.add("segments", built.segs.len() as u64);
+    // layout assumption: one segment per add-commit, in order, documents in add order
+    let manifest = serde_json::to_value(idx.manifest()).unwrap_or(Value::Null);
+    let msegs = manifest["segments"].as_array().cloned().unwrap_or_default();
+    let layout_ok = msegs.len() == built.segs.len()
+      && msegs.iter().zip(&built.segs).all(|(m, sg)| {
+        m["doc_count"].as_u64() == Some(sg.len() as u64) && {
+          let mut del: Vec<u64> = m["deleted_docs"].as_array().map(|a| a.iter().filter_map(|x| x.as_u64()).collect()).unwrap_or_default();
+          del.sort();
+          let mine: Vec<u64> = sg.iter().filter(|v| v.deleted).map(|v| v.doc as u64).collect();
+          del == mine
+        }
+      });
+    if !layout_ok {
+      s.disagree("layout", case, json!({"segments": msegs.iter().map(|m| json!({"doc_count": m["doc_count"], "deleted_docs": m["deleted_docs"]})).collect::<Vec<_>>()}),
+        json!(built.segs.iter().map(|sg| json!({"doc_count": sg.len(), "deleted": sg.iter().filter(|v| v.deleted).map(|v| v.doc).collect::<Vec<_>>()})).collect::<Vec<_>>()));
+      return;
+    }
+    // regime: every segment holds at most m vectors of every field
+    let mut exact_regime = true;
+    let mut max_seg_vectors: BTreeMap<String, usize> = BTreeMap::new();
+    for f in &fields {
+      let name = f["name"].as_str().unwrap_or("");
+      for sg in &built.segs {
+        let n = sg.iter().filter(|v| v.vec(name).is_some()).count();
+        let e = max_seg_vectors.entry(name.to_string()).or_insert(0);
+        *e = (*e).max(n);
+        if n > field_m(f) {
+          exact_regime = false;
+        }
+      }
+    }
+    s.count(if exact_regime { "regime.every-segment<=m" } else { "regime.some-segment>m" });
+    // graph files written by the real segment writer vs the model's construction
+    if !mem {
+      for (si, m) in msegs.iter().enumerate() {
+        let Some(vdir) = m["paths"]["vector_dir"].as_str() else { continue };
+        let vdir = if std::path::Path::new(vdir).is_absolute() { std::path::PathBuf::from(vdir) } else { dir.path().join(vdir) };
+        for f in &fields {
+          let name = f["name"].as_str().unwrap_or("");
+          let Ok(txt) = std::fs::read_to_string(vdir.join(format!("{name}.hnsw"))) else {
+            s.count("graph.file-missing");
+            continue;
+          };
+          let g: Value = serde_json::from_str(&txt).unwrap_or(Value::Null);
+          let store: Vec<Value> = built.segs[si].iter().map(|v| v.vec(name).map(|x| json!(x)).unwrap_or(Value::Null)).collect();
+          let mg = drv.call("C29", json!({"op": "graph", "metric": f["metric"], "store": store, "m": field_m(f), "efc": field_efc(f)}));
+          s.traces_validated += 1;
+          if mg["ok"] != json!(true) || mg["entry"] != g["entry"] || mg["neighbors"] != g["neighbors"] {
+            s.disagree("graph", &json!({"field": f, "store": store}), json!({"entry": g["entry"], "neighbors": g["neighbors"]}), mg);
+          } else {
+            s.count("graph.equal");
+          }
+        }
+      }
+    }
+    let reader = match idx.reader() {
+      Ok(r) => r,
+      Err(e) => {
+        s.disagree("reader", case, json!({"error": e.to_string()}), json!("ok"));
+        return;
+      }
+    };
+    let requests = case["requests"].as_array().cloned().unwrap_or_default();
+    let mut pre: Vec<Option<Vec<(String, f64)>>> = Vec::new();
+    let mut model_reqs: Vec<Value> = Vec::new();
+    for rq in &requests {
+      let mut mreq = Value::Null;
+      let r = run_request(drv, s, case, &fields, &built, &reader, rq, exact_regime, &mut mreq);
+      pre.push(r);
+      model_reqs.push(mreq);
+    }
+    if case["compact"].as_bool().unwrap_or(false) {
+      s.count("compact.run");
+      match guarded(|| idx.compact()) {
+        Ok(Ok(())) => {
+          let reader2 = match idx.reader() {
+            Ok(r) => r,
+            Err(e) => {
+              s.fail("compact.reader-error", "no reader after compaction of an index with vector fields", case, json!({"error": e.to_string()}));
+              return;
+            }
+          };
+          for ((rq, before), mreq) in requests.iter().zip(&pre).zip(&model_reqs) {
+            let Some(before) = before else { continue };
+            if before.is_empty() || !rq["vector_only"].as_bool().unwrap_or(false) {
+              continue;
+            }
+            let after = match search(&reader2, &rq["req"]) {
+              idx::Outcome::Ok(v) => v["hits"].as_array().cloned().unwrap_or_default().iter().map(|h| (ver_of_hit(h), hscore(h))).collect::<Vec<_>>(),
+              o => {
+                s.fail("compact.search-error", "a vector request that succeeded before compaction fails after it", &json!({"case": case, "req": rq}), o.to_json());
+                continue;
+              }
+            };
+            // correspondence: the model of compaction (re-ingest from stored fields, no vectors)
+            if !mreq.is_null() {
+              let mut m2 = mreq.clone();
+              m2["compacted"] = json!(true);
+              let mr = drv.call("C29", m2);
+              let mn = mr["hits"].as_array().map(|a| a.len());
+              if mr["outcome"] != json!("hits") || mn != Some(after.len()) {
+                s.disagree("compact.search", &json!({"kind": "index", "fields": fields, "commits": commits, "requests": [rq], "compact": true, "mem": mem}), json!(after), mr);
+              } else {
+                s.count("compact.model-agrees");
+              }
+            }
+            let same = after.len() == before.len() && after.iter().zip(before).all(|(a, b)| near(a.1, b.1)) && {
+              let mut x: Vec<&String> = after.iter().map(|a| &a.0).collect();
+              let mut y: Vec<&String> = before.iter().map(|a| &a.0).collect();
+              x.sort();
+              y.sort();
+              x == y
+            };
+            if !same && built.segs.len() > 1 {
+              let sig = if after.is_empty() { "compact.vectors-dropped" } else { "compact.vector-results-changed" };
+              s.fail(sig, "a vector-only request returns different hits after compact()", &json!({"kind": "index", "fields": fields, "commits": commits, "requests": [rq], "compact": true, "mem": mem}), json!({"before": before, "after": after}));
+            } else {
+              s.count("compact.same-results");
+            }
+          }
+        }
+        Ok(Err(e)) => {
+          s.count("compact.refused");
+          s.notes.push(format!("C29: compact() refused on a vector schema: {e}"));
+        }
+        Err(p) => s.fail("compact.panic", "compact() panicked on an index with vector fields", case, json!({"panic": p})),
+      }
+    }
+  }
+
+  /// effective per-clause knobs as documented (`k` defaults to `limit`, oversampling
+  /// `candidate_size` defaults to twice max(k, limit, 10), beam defaults to max(40, that));
+  /// used only to *name* an exactness failure, never to detect one
+  fn knobs(c: &Value, limit: usize) -> (usize, usize, usize) {
+    let k = c["k"].as_u64().map(|x| x as usize).unwrap_or(limit).max(1);
+    let cs = c["candidate_size"].as_u64().map(|x| x as usize).unwrap_or(k.max(limit).max(10) * 2).max(k);
+    let ef = c["ef_search"].as_u64().map(|x| x as usize).unwrap_or(cs.max(40));
+    (k, cs, ef)
+  }
+
+  /// runs one request: correspondence + finder; returns the implementation's (ver, score) list
+  #[allow(clippy::too_many_arguments)]
+  fn run_request(drv: &mut Driver, s: &mut Summary, case: &Value, fields: &[Value], built: &Built, reader: &searchlite_core::api::IndexReader, rq: &Value, exact_regime: bool, model_req_out: &mut Value) -> Option<Vec<(String, f64)>> {
+    let req = &rq["req"];
+    let shape = rq["shape"].as_str().unwrap_or("?");
+    let vector_only = rq["vector_only"].as_bool().unwrap_or(false);
+    let limit = req["limit"].as_u64().unwrap_or(10) as usize;
+    s.count(&format!("shape.{shape}"));
+    let clauses = clauses_of(req);
+    let all: Vec<&Ver> = built.segs.iter().flatten().collect();
+    let sub = json!({"kind": "index", "fields": fields, "commits": case["commits"], "requests": [rq], "compact": false, "mem": case["mem"]});
+
+    // text side of a hybrid request, from the implementation itself: same request with
+    // every vector clause switched to alpha = 1 (pure BM25), unbounded limit
+    let mut bm25: BTreeMap<String, f64> = BTreeMap::new();
+    let mut text_ok = true;
+    if !vector_only {
+      let mut t = req.clone();
+      fn set_alpha(n: &mut Value) {
+        if n["type"].as_str() == Some("vector") {
+          n["alpha"] = json!(1.0);
+        }
+        for k in ["must", "should", "must_not", "queries"] {
+          if let Some(a) = n.get_mut(k).and_then(|x| x.as_array_mut()) {
+            for c in a.iter_mut() {
+              set_alpha(c);
+            }
+          }
+        }
+      }
+      set_alpha(&mut t["query"]);
+      match &mut t["vector_query"] {
+        Value::Array(a) if a.len() == 3 => a[2] = json!(1.0),
+        Value::Object(o) => {
+          o.insert("alpha".to_string(), json!(1.0));
+        }
+        _ => {}
+      }
+      t["limit"] = json!(1000);
+      t.as_object_mut().unwrap().remove("candidate_size");
+      t.as_object_mut().unwrap().remove("vector_filter");
+      match search(reader, &t) {
+        idx::Outcome::Ok(v) => {
+          for h in v["hits"].as_array().cloned().unwrap_or_default() {
+            bm25.insert(ver_of_hit(&h), hscore(&h));
+          }
+        }
+        _ => text_ok = false,
+      }
+    }
+
+    let out = search(reader, req);
+    let imp_hits: Vec<Value> = out.ok().map(|v| v["hits"].as_array().cloned().unwrap_or_default()).unwrap_or_default();
+    let imp_list: Vec<(String, f64)> = imp_hits.iter().map(|h| (ver_of_hit(h), hscore(h))).collect();
+
+    // ---------------------------------------------------------------- correspondence
+    let filter = &req["filter"];
+    let vfilter = &req["vector_filter"];
+    let segs_json: Vec<Value> = built
+      .segs
+      .iter()
+      .map(|sg| {
+        Value::Array(
+          sg.iter()
+            .map(|v| {
+              let mut vecs = serde_json::Map::new();
+              for f in fields {
+                let name = f["name"].as_str().unwrap_or("");
+                if let Some(x) = v.vec(name) {
+                  vecs.insert(name.to_string(), json!(x));
+                }
+              }
+              json!({"deleted": v.deleted, "pass_filter": passes(filter, &v.json), "pass_vfilter": passes(vfilter, &v.json),
+                "text_match": bm25.contains_key(&v.ver), "bm25": bm25.get(&v.ver), "vecs": vecs})
+            })
+            .collect(),
+        )
+      })
+      .collect();
+    let mreq = json!({"query": req["query"], "vector_query": req["vector_query"], "limit": limit, "candidate_size": req["candidate_size"]});
+    let full_mreq = json!({"op": "search", "schema": model_schema(fields), "segments": segs_json, "req": mreq});
+    if vector_only {
+      *model_req_out = full_mreq.clone();
+    }
+    let mr = drv.call("C29", full_mreq);
+    let model_class = mr["outcome"].as_str().unwrap_or("?").to_string();
+    s.count(&format!("model.{model_class}"));
+    let mut nontrivial = false;
+    match (&out, model_class.as_str()) {
+      (idx::Outcome::Panic(p), _) => {
+        s.fail("search.panic", "a vector request panicked", &sub, json!({"panic": p}));
+      }
+      (idx::Outcome::Err(_), "error") => {
+        s.count(&format!("rejected.{}", mr["err"].as_str().unwrap_or("?")));
+      }
+      (idx::Outcome::Ok(_), "text_only") => {
+        if imp_hits.iter().any(|h| !h["vector_score"].is_null()) {
+          s.disagree("text-only", &sub, json!(imp_hits), mr.clone());
+        }
+      }
+      (idx::Outcome::Ok(_), "hits") if text_ok => {
+        let mh = mr["hits"].as_array().cloned().unwrap_or_default();
+        let mlist: Vec<(String, f64, Option<f64>, u64, Option<u64>)> = mh
+          .iter()
+          .map(|h| {
+            let sg = h["seg"].as_u64().unwrap_or(0) as usize;
+            let d = h["doc"].as_u64().unwrap_or(0) as usize;
+            let ver = built.segs.get(sg).and_then(|x| x.get(d)).map(|v| v.ver.clone()).unwrap_or_default();
+            (ver, bits_f32(&h["score"]), if h["vector_score"].is_null() { None } else { Some(bits_f32(&h["vector_score"])) },
+             h["score"]["bits"].as_u64().unwrap_or(0), h["vector_score"]["bits"].as_u64())
+          })
+          .collect();
+        let mut ok = mlist.len() == imp_hits.len();
+        let mut bit_exact = ok;
+        if ok {
+          for (i, h) in imp_hits.iter().enumerate() {
+            let isc = hscore(h);
+            let ivs = hvs(h);
+            let (mver, msc, mvs, mbits, mvbits) = &mlist[i];
+            if h["score_bits"].as_u64() != Some(*mbits) || h["vs_bits"].as_u64() != *mvbits {
+              bit_exact = false;
+            }
+            if !near(isc, *msc) || ivs.is_some() != mvs.is_some() || !ivs.zip(*mvs).map(|(a, b)| near(a, b)).unwrap_or(true) {
+              ok = false;
+            }
+            if ver_of_hit(h) != *mver {
+              // same position may hold a different document only inside a tie group
+              let tie = mlist.iter().any(|x| x.0 == ver_of_hit(h) && near(x.1, isc));
+              bit_exact = false;
+              if !tie {
+                ok = false;
+              }
+            }
+          }
+        }
+        if !ok {
+          s.disagree("search", &sub, json!(imp_hits.iter().map(|h| json!({"ver": ver_of_hit(h), "score": h["score"], "vector_score": h["vector_score"]})).collect::<Vec<_>>()),
+            json!(mlist.iter().map(|x| json!({"ver": x.0, "score": x.1, "vector_score": x.2})).collect::<Vec<_>>()));
+        } else {
+          s.count(if bit_exact { "search.bit-exact" } else { "search.within-tolerance" });
+        }
+      }
+      (idx::Outcome::Ok(_), "hits") => s.count("search.text-side-unavailable"),
+      (o, _) => {
+        s.disagree("outcome-class", &sub, o.to_json(), mr.clone());
+      }
+    }
+
+    // ---------------------------------------------------------------- finder (implementation alone)
+    // wrong dimension ⇒ rejected
+    let wrong_dim = clauses.iter().any(|c| field_of(fields, c["field"].as_str().unwrap_or("")).map(|f| f["dim"].as_u64() != Some(f64s(&c["vector"]).len() as u64)).unwrap_or(false));
+    if wrong_dim {
+      nontrivial = true;
+      if let idx::Outcome::Ok(_) = out {
+        s.fail("dim.request-accepted", "a vector query whose dimension differs from the field's was accepted", &sub, json!({"hits": imp_hits.len()}));
+      }
+    }
+    let valid = shape != "invalid" && shape != "wrong_dim";
+    if let (idx::Outcome::Ok(_), true) = (&out, valid && (vector_only || text_ok)) {
+      let by_ver: BTreeMap<&str, &Ver> = all.iter().map(|v| (v.ver.as_str(), *v)).collect();
+      let plan_dropped = !vector_only && clauses.iter().all(|c| c["alpha"].as_f64().unwrap_or(0.5) >= 1.0);
+      // eligibility of a version for clause c
+      let elig = |v: &Ver, c: &Value| -> bool {
+        !v.deleted && v.vec(c["field"].as_str().unwrap_or("")).is_some() && passes(filter, &v.json) && passes(vfilter, &v.json) && (vector_only || bm25.contains_key(&v.ver))
+      };
+      let clause_score = |v: &Ver, c: &Value| -> f64 {
+        let fname = c["field"].as_str().unwrap_or("");
+        let f = field_of(fields, fname).unwrap();
+        exact_sim(f["metric"].as_str().unwrap_or("L2"), &f64s(&c["vector"]), &v.vec(fname).unwrap_or_default()) * c["boost"].as_f64().unwrap_or(1.0)
+      };
+      let blend = |bm: f64, c: &Value, vs: Option<f64>| -> f64 {
+        let f = field_of(fields, c["field"].as_str().unwrap_or("")).unwrap();
+        let a = c["alpha"].as_f64().unwrap_or(0.5);
+        let vec = vs.unwrap_or(missing_score(f["metric"].as_str().unwrap_or("L2")));
+        if a >= 1.0 {
+          bm
+        } else if a <= 0.0 {
+          vec
+        } else {
+          a * bm + (1.0 - a) * vec
+        }
+      };
+      // the text side only hands the best text hits of each segment to the blend (at least
+      // `limit` per segment): a document outside its segment's top-`limit` text hits may be
+      // blended with a text score of 0
+      let mut text_top: BTreeSet<&str> = BTreeSet::new();
+      let mut text_cut = false;
+      for sg in &built.segs {
+        let mut th: Vec<(f64, &str)> = sg.iter().filter_map(|v| bm25.get(&v.ver).map(|b| (*b, v.ver.as_str()))).collect();
+        th.sort_by(|a, b| b.0.partial_cmp(&a.0).unwrap_or(std::cmp::Ordering::Equal));
+        if th.len() > limit {
+          text_cut = true;
+        }
+        let floor = th.get(limit.saturating_sub(1)).map(|x| x.0).unwrap_or(f64::NEG_INFINITY);
+        for (b, ver) in th {
+          if b >= floor {
+            text_top.insert(ver);
+          }
+        }
+      }
+      let n_ineligible = all.iter().filter(|v| clauses.iter().any(|c| v.vec(c["field"].as_str().unwrap_or("")).is_some() && !elig(v, c)) || clauses.iter().all(|c| v.vec(c["field"].as_str().unwrap_or("")).is_none())).count();
+      let n_eligible = all.iter().filter(|v| clauses.iter().any(|c| elig(v, c))).count();
+      let mut seen: BTreeSet<String> = BTreeSet::new();
+      let mut prev = f64::INFINITY;
+      let mut any_vs = false;
+      for h in &imp_hits {
+        let ver = ver_of_hit(h);
+        let sc = hscore(h);
+        let vs = hvs(h);
+        let obs = json!({"hit": {"ver": ver, "doc_id": h["doc_id"], "score": sc, "vector_score": vs}});
+        if !seen.insert(ver.clone()) {
+          s.fail("hits.duplicate", "the same document version is returned twice", &sub, obs.clone());
+        }
+        if sc > prev && !near(sc, prev) {
+          s.fail("order.score-not-descending", "hits are not ordered by descending blended score", &sub, obs.clone());
+        }
+        prev = sc;
+        let Some(v) = by_ver.get(ver.as_str()) else {
+          s.fail("hits.unknown-version", "a hit carries stored fields of no indexed version", &sub, obs);
+          continue;
+        };
+        if v.deleted {
+          s.fail("hits.deleted", "a deleted or superseded document version is returned", &sub, obs.clone());
+          continue;
+        }
+        if !passes(filter, &v.json) {
+          s.fail("hits.filter", "a hit does not pass `filter`", &sub, obs.clone());
+          continue;
+        }
+        if plan_dropped {
+          if vs.is_some() {
+            s.fail("score.vector-on-text-only", "alpha = 1 everywhere but a vector_score is reported", &sub, obs.clone());
+          }
+          continue;
+        }
+        let el: Vec<&Value> = clauses.iter().filter(|c| elig(v, c)).collect();
+        let bm = bm25.get(&ver).copied().unwrap_or(0.0);
+        let bm_opts: Vec<f64> = if bm != 0.0 && !text_top.contains(ver.as_str()) { vec![bm, 0.0] } else { vec![bm] };
+        match vs {
+          Some(vs) => {
+            any_vs = true;
+            if el.is_empty() {
+              let why = if clauses.iter().all(|c| v.vec(c["field"].as_str().unwrap_or("")).is_none()) {
+                "hits.no-vector"
+              } else if !passes(vfilter, &v.json) {
+                "hits.vector-filter"
+              } else {
+                "hits.no-text-match"
+              };
+              s.fail(why, "a hit with a vector_score is not an eligible vector candidate of any clause", &sub, obs.clone());
+              continue;
+            }
+            // vector_score = Σ over the clauses that kept the document (all eligible ones
+            // unless a clause's candidate list was cut) of exact similarity × boost
+            let mut found = false;
+            let n = el.len();
+            for (mask, bm) in (1..(1u32 << n)).rev().flat_map(|m| bm_opts.iter().map(move |b| (m, *b))) {
+              let sum: f64 = (0..n).filter(|i| mask >> i & 1 == 1).map(|i| clause_score(v, el[i])).sum();
+              if !near(sum, vs) {
+                continue;
+              }
+              let total: f64 = clauses
+                .iter()
+                .map(|c| {
+                  let pos = el.iter().position(|e| std::ptr::eq(*e, c));
+                  let cvs = pos.filter(|i| mask >> i & 1 == 1).map(|_| clause_score(v, c));
+                  blend(bm, c, cvs)
+                })
+                .sum::<f64>()
+                / clauses.len().max(1) as f64;
+              if near(total, sc) {
+                found = true;
+                if mask != (1u32 << n) - 1 {
+                  s.count("finder.partial-clause-set");
+                }
+                if bm == 0.0 && bm_opts.len() > 1 {
+                  s.count("finder.text-score-dropped-outside-segment-top-limit");
+                }
+                break;
+              }
+            }
+            if !found {
+              let full: f64 = el.iter().map(|c| clause_score(v, c)).sum();
+              if !near(full, vs) && n == 1 {
+                s.fail("score.vector", "vector_score differs from exact similarity × boost", &sub, json!({"hit": obs["hit"], "expected_vector_score": full}));
+              } else if n == 1 || near(full, vs) {
+                let total: f64 = clauses.iter().map(|c| blend(bm, c, if el.iter().any(|e| std::ptr::eq(*e, c)) { Some(clause_score(v, c)) } else { None })).sum::<f64>() / clauses.len().max(1) as f64;
+                s.fail("score.blend", "score differs from the documented blend of text and vector scores", &sub, json!({"hit": obs["hit"], "bm25": bm, "expected_score": total}));
+              } else {
+                s.fail("score.vector-multi", "vector_score is not the sum of exact similarity × boost over any set of matching clauses", &sub, json!({"hit": obs["hit"], "expected_full_sum": full}));
+              }
+            }
+          }
+          None => {
+            if vector_only {
+              s.fail("hits.no-vector-score", "a vector-only request returned a hit without vector_score", &sub, obs.clone());
+            } else if !bm25.contains_key(&ver) {
+              s.fail("hits.no-text-match", "a hybrid hit without vector_score is not a text hit", &sub, obs.clone());
+            } else if clauses.iter().all(|c| c["alpha"].as_f64().unwrap_or(0.5) <= 0.0) {
+              s.fail("hits.text-only-with-alpha-0", "alpha = 0 everywhere but a hit without vector part is returned", &sub, obs.clone());
+            } else {
+              let total: f64 = clauses.iter().map(|c| blend(bm, c, None)).sum::<f64>() / clauses.len().max(1) as f64;
+              let alt = bm_opts.iter().any(|b| near(clauses.iter().map(|c| blend(*b, c, None)).sum::<f64>() / clauses.len().max(1) as f64, sc));
+              if !near(total, sc) && !alt && el.is_empty() {
+                s.fail("score.blend-missing", "score of a hit without vector differs from the documented blend with the missing-vector penalty", &sub, json!({"hit": obs["hit"], "bm25": bm, "expected_score": total}));
+              }
+            }
+          }
+        }
+      }
+      if any_vs && (n_ineligible >= 1 || n_eligible >= 2) {
+        nontrivial = true;
+      }
+      // exact nearest neighbours when every segment holds at most m vectors
+      if exact_regime && !plan_dropped {
+        let single = clauses.len() == 1;
+        let min_k = clauses.iter().map(|c| knobs(c, limit).0).min().unwrap_or(limit);
+        let cut_possible = clauses.iter().any(|c| all.iter().filter(|v| elig(v, c)).count() > knobs(c, limit).0);
+        if !vector_only && text_cut {
+          s.count("exact.skipped-text-side-cut");
+        } else if single || !cut_possible {
+          // expected final score of every potential hit with complete candidate information
+          let mut exp: Vec<(f64, String)> = Vec::new();
+          for v in &all {
+            if v.deleted || !passes(filter, &v.json) {
+              continue;
+            }
+            let el: Vec<&Value> = clauses.iter().filter(|c| elig(v, c)).collect();
+            let is_text = bm25.contains_key(&v.ver);
+            if el.is_empty() && (vector_only || !is_text || clauses.iter().all(|c| c["alpha"].as_f64().unwrap_or(0.5) <= 0.0)) {
+              continue;
+            }
+            let bm = bm25.get(&v.ver).copied().unwrap_or(0.0);
+            let total: f64 = clauses.iter().map(|c| blend(bm, c, if el.iter().any(|e| std::ptr::eq(*e, c)) { Some(clause_score(v, c)) } else { None })).sum::<f64>() / clauses.len().max(1) as f64;
+            exp.push((total, v.ver.clone()));
+          }
+          exp.sort_by(|a, b| b.0.partial_cmp(&a.0).unwrap_or(std::cmp::Ordering::Equal));
+          let want_min = limit.min(min_k).min(exp.len());
+          let prefix_ok = imp_list.len() <= exp.len() && imp_list.iter().enumerate().all(|(i, (_, sc))| near(*sc, exp[i].0));
+          if imp_list.len() < want_min || !prefix_ok {
+            s.count("exact.checked");
+            // name the failing input class
+            let mut sig = "exact-nn.other";
+            for c in &clauses {
+              let (k, cs, ef) = knobs(c, limit);
+              let fname = c["field"].as_str().unwrap_or("");
+              for sg in &built.segs {
+                let nvec = sg.iter().filter(|v| v.vec(fname).is_some()).count();
+                let bad = sg.iter().any(|v| v.vec(fname).is_some() && !elig(v, c));
+                if nvec > cs.max(k) && bad {
+                  sig = "exact-nn.ineligible-in-segment-topk";
+                } else if ef.max(cs.max(k).min(nvec)) < nvec && sig == "exact-nn.other" {
+                  sig = "exact-nn.ef-below-segment-size";
+                }
+              }
+            }
+            s.fail(sig, "every segment holds at most hnsw.m vectors but the hits are not the exact nearest neighbours", &sub,
+              json!({"returned": imp_list, "expected_prefix": exp.iter().take(limit).collect::<Vec<_>>(), "min_expected_len": want_min}));
+          } else {
+            s.count("exact.checked");
+            s.count("exact.ok");
+          }
+        } else {
+          s.count("exact.skipped-multi-clause-cut");
+        }
+      }
+    }
+    s.case(&json!({"fields": fields, "segments": built.segs.iter().map(|sg| sg.iter().map(|v| json!({"ver": v.ver, "deleted": v.deleted})).collect::<Vec<_>>()).collect::<Vec<_>>(), "request": rq}), nontrivial);
+    match out {
+      idx::Outcome::Ok(_) => Some(imp_list),
+      _ => None,
+    }
+  }
 }
